@@ -228,7 +228,28 @@ def gen_features():
     return "GenFeatures.v", text, {"names": names, "flag_order": order, "sorted_iteration": sorted_iter}
 
 
-GENERATORS = {"proc": gen_proc, "vte": gen_vte, "features": gen_features}
+def gen_syntax():
+    """order of the two syntax-table lookups and the whole-name length threshold in
+    Painter::get_syntax (source scan of src/paint.rs)"""
+    src = rustsrc.load(os.path.join(REPO, "src/paint.rs"))
+    body = norm(rustsrc.fn_body(src, r"fn get_syntax<'a>\("))
+    m = re.search(r"if !extension\.is_empty\(\) \|\| file_name\.len\(\) > (\d+) \{", body)
+    if not m:
+        raise PatternError("get_syntax: guard `!extension.is_empty() || file_name.len() > N` not found")
+    thr = int(m.group(1))
+    a = re.search(r"\.find_syntax_by_extension\((\w+)\) \.or_else\(\|\| syntax_set\.find_syntax_by_extension\((\w+)\)\)", body)
+    if not a or {a.group(1), a.group(2)} != {"file_name", "extension"}:
+        raise PatternError("get_syntax: lookup chain find_syntax_by_extension(..).or_else(..) not found")
+    first = a.group(1) == "file_name"
+    text = ("(* GENERATED by tools/translate.py from src/paint.rs Painter::get_syntax: which of the two\n"
+            "   syntax-table lookups comes first, and the length above which an extension-less name is\n"
+            "   looked up as a whole. *)\n"
+            f"Definition whole_name_first : bool := {coq_bool(first)}.\n"
+            f"Definition min_whole_name_len : nat := {thr}.\n")
+    return "GenSyntax.v", text, {"whole_name_first": first, "threshold": thr}
+
+
+GENERATORS = {"proc": gen_proc, "vte": gen_vte, "features": gen_features, "syntax": gen_syntax}
 
 
 def run(which=None):
